@@ -95,5 +95,9 @@ func DefaultRtpUnpackerFactory(payloadType base.AvPacketPt, clockRate int, maxSi
 // 注意，clockRate不一定是1000的整数倍（比如44100、22050、11025），
 // 所以不能先算 clockRate/1000 再做除法，否则时间戳会持续漂移
 func rtpTs2Ms(ts uint32, clockRate int) int64 {
+	// sdp中的clock rate来自对端，可能不合法
+	if clockRate <= 0 {
+		return int64(ts)
+	}
 	return int64(uint64(ts) * 1000 / uint64(clockRate))
 }
